@@ -106,6 +106,21 @@ def are_joinable(
         if any_out_edges and block2.size != 0:
             return JoinableResult(False, "block1 has outgoing edges")
 
+        # An empty block2 that block1 cannot fall through into (e.g. block1
+        # ends in a return or jump) must not hand its edges over to block1.
+        falls_through_to_block2 = any(
+            _is_fallthrough_edge(edge) and edge.target == block2
+            for edge in block1.outgoing_edges
+        )
+        if (
+            any_out_edges
+            and not falls_through_to_block2
+            and any(block2.outgoing_edges)
+        ):
+            return JoinableResult(
+                False, "block1 does not fall through to block2"
+            )
+
         any_in_edges = any(
             edge
             for edge in block2.incoming_edges
